@@ -1734,6 +1734,12 @@ func resolveIndex(v, index reflect.Value, indexAsStr string) (reflect.Value, err
 			ptr = ptr.Addr()
 		}
 		if method := ptr.MethodByName(indexAsStr); method.IsValid() {
+			if isNil && v.Kind() == reflect.Ptr {
+				// a method declared on the value type cannot be called through a nil pointer (the call would panic)
+				if _, onValue := v.Type().Elem().MethodByName(indexAsStr); onValue {
+					return reflect.Value{}, fmt.Errorf("nil pointer evaluating %s.%s", v.Type(), indexAsStr)
+				}
+			}
 			return method, nil
 		}
 	}
